@@ -155,6 +155,8 @@ def check(rep, tier, seed):
             mjobs.append((["stat", "-s", st, "-p", str(p_)], txt))
         mmeta.append((argv, txt, req, delim))
     mres = run_cli_many(mjobs)
+    from common import invocation_variants
+    invocation_variants(rep, "stat:invocation-form", [m for m in mjobs if "-H" in m[0]], rng, n=8 if tier == "quick" else 60)
     pos = 0
     for argv, txt, req, delim in mmeta:
         multi = mres[pos]; singles = mres[pos + 1:pos + 1 + len(req)]; pos += 1 + len(req)
